@@ -208,8 +208,7 @@ fn list_return(out: &str, is_json: bool) -> Value {
                         let obj = it.as_object();
                         let keys_ok = obj
                             .map(|o| {
-                                o.len() == 3
-                                    && o.contains_key("line_range")
+                                o.contains_key("line_range")
                                     && o.contains_key("annotated_code_block")
                                     && o.contains_key("current_status")
                             })
